@@ -324,13 +324,31 @@ def run(c):
                            expected={"reports": len(er), "panic": exp.get("panic"), "first_difference_at": diff, "there": er[diff:diff + 2]},
                            observed={"reports": len(orr), "panic": obs.get("panic"), "there": orr[diff:diff + 2]})
             elif k == "mismatch":
+                er, orr = l["expected"].get("reports") or [], l["observed"].get("reports") or []
+                diff = next((i for i, (a, b) in enumerate(zip(er, orr)) if a != b), min(len(er), len(orr)))
                 c.fail("oracle", "a concurrent Run delivered other reports than the sequential baseline for that file",
                        input={"ruleset": l["ruleset"], "file": l["file"], "goroutines": l["n"], "phase": l["phase"],
                               "state": l["state"], "goroutine": l["goroutine"], "seed": l["seed"], "check_seed": c.seed},
-                       expected={"reports": len(l["expected"].get("reports") or []), "panic": l["expected"].get("panic"),
-                                 "first": (l["expected"].get("reports") or [None])[:3]},
-                       observed={"reports": len(l["observed"].get("reports") or []), "panic": l["observed"].get("panic"),
-                                 "first": (l["observed"].get("reports") or [None])[:3]})
+                       expected={"reports": len(er), "panic": l["expected"].get("panic"),
+                                 "first": (er or [None])[:2], "first_difference_at": diff, "there": er[diff:diff + 2]},
+                       observed={"reports": len(orr), "panic": l["observed"].get("panic"),
+                                 "first": (orr or [None])[:2], "there": orr[diff:diff + 2]})
+            elif k == "ast":
+                # the caller's syntax tree against its fingerprint (decls.go): seen by the observer while runs were in
+                # progress, or after all rounds
+                c.count()
+                c.coverage["tree_fingerprints_compared"] = c.coverage.get("tree_fingerprints_compared", 0) + 1
+                if not l["agree"]:
+                    c.fail("oracle", "Run modified the syntax tree it was handed (the caller's *ast.File, which concurrent Run calls "
+                           "on the same file and every other reader of the tree share)",
+                           input={"file": l["file"], "when": l["when"], "declaration": l.get("decl"), "position": l.get("pos"),
+                                  "seed": c.seed, "harness": "harness/cmd/c08 -mode explore (rule set decls, same-file rounds)"},
+                           expected="the tree is what the parser delivered, at every moment",
+                           observed=l.get("what"))
+            elif k == "ast-observer":
+                c.count(l.get("looks") or 0)
+                c.coverage["tree_observer_looks"] = c.coverage.get("tree_observer_looks", 0) + (l.get("looks") or 0)
+                c.coverage["same_file_rounds"] = c.coverage.get("same_file_rounds", 0) + 1
             elif k == "round":
                 c.count(l["runs"])
                 c.coverage["concurrent_runs"] = c.coverage.get("concurrent_runs", 0) + l["runs"]
@@ -358,6 +376,13 @@ def run(c):
                          "%d rules of the natives rule sets deliver reports in the baseline, expected at least %d" % (have, want))
     else:
         c.obligation("harness:c08-natives-line", False, "the harness did not report the natives it exercises")
+    # generator: whole declarations in messages on in-memory files, the same file from all goroutines of a round, an observer
+    # on the trees (decls.go) -- measured, not assumed
+    nd, sf, looks = (c.coverage.get("rules_reporting:decls", 0), c.coverage.get("same_file_rounds", 0),
+                     c.coverage.get("tree_observer_looks", 0))
+    c.obligation("generator:same-file-declarations", nd >= 12 and sf >= 3 and looks >= 100,
+                 "%d rules of the set `decls` deliver reports (want >= 12), %d same-file rounds (want >= 3), the observer "
+                 "compared %d trees with their fingerprints while runs were in progress (want >= 100)" % (nd, sf, looks))
 
     # ------------------------------------------------------------------ O: lone Runs in processes of their own
     def judge_lone():
